@@ -103,10 +103,13 @@ pub struct Scn {
     pub b: usize,    // initially buffered
     pub need: usize, // request
     pub k: usize,    // peer's final commit / consume
+    /// Ring position at which the scenario starts (samples produced and
+    /// consumed beforehand), so that the buffered data can straddle the wrap.
+    pub offset: usize,
 }
 impl Scn {
     fn to_json(&self) -> Value {
-        json!({"kind": self.kind, "cut": self.cut, "buffered": self.b, "need": self.need, "final": self.k})
+        json!({"kind": self.kind, "cut": self.cut, "buffered": self.b, "need": self.need, "final": self.k, "ring_offset": self.offset})
     }
     fn from_json(v: &Value) -> Option<Scn> {
         Some(Scn {
@@ -115,6 +118,7 @@ impl Scn {
             b: v["buffered"].as_u64()? as usize,
             need: v["need"].as_u64()? as usize,
             k: v["final"].as_u64()? as usize,
+            offset: v["ring_offset"].as_u64().unwrap_or(0) as usize,
         })
     }
 }
@@ -136,6 +140,22 @@ fn commit(w: &WriteStream<u32>, from: u32, n: usize) {
     }
     wb.produce(n, &[]);
 }
+/// Move the ring position forward by `n` samples (produce and consume them).
+fn advance(w: &WriteStream<u32>, r: &ReadStream<u32>, n: usize) {
+    let mut left = n;
+    while left > 0 {
+        let mut wb = w.write_buf().unwrap();
+        let k = std::cmp::min(left, wb.len());
+        for i in 0..k {
+            wb.slice()[i] = 0xFFFF_0000;
+        }
+        wb.produce(k, &[]);
+        let (rb, _) = r.read_buf().unwrap();
+        let l = rb.len();
+        rb.consume(l);
+        left -= k;
+    }
+}
 fn drain(r: &ReadStream<u32>) -> Vec<u32> {
     let (rb, _) = r.read_buf().unwrap();
     let v = rb.slice().to_vec();
@@ -150,6 +170,7 @@ fn scn_read_stream(s: &Scn) -> Verdicts {
     rec::stream_size(4096);
     let (w, r) = new_stream::<u32>();
     rec::stream_size(0);
+    advance(&w, &r, s.offset);
     commit(&w, 0, s.b);
     let total = s.b + s.k;
     let use_eof = s.kind == "ReadStream::eof";
@@ -274,6 +295,7 @@ fn scn_write_stream(s: &Scn) -> Verdicts {
     let (w, r) = new_stream::<u32>();
     rec::stream_size(0);
     let cap = r.total_size();
+    advance(&w, &r, s.offset);
     let fill = cap - std::cmp::min(s.b, cap); // free space = s.b initially
     commit(&w, 0, fill);
     let gate = match s.cut.as_str() {
@@ -647,34 +669,52 @@ pub fn grid() -> Vec<Scn> {
         (0, 1, 0), (0, 1, 1), (0, 1, 10), (5, 10, 0), (5, 10, 4), (5, 10, 5), (5, 10, 10), (5, 15, 10),
         (0, 10, 10), (0, 10, 9), (9, 10, 1), (1, 1, 0), (3, 2, 0), (0, 1000, 1000), (0, 1000, 999), (500, 1024, 524),
     ];
+    let cap = 1024usize; // u32 samples in the one-page stream the scenarios use
     for &(b, need, k) in params {
-        for cut in ["before-call", "during-wait", "at-liveness-read", "commit-only-at-liveness-read", "after-call"] {
-            g.push(Scn { kind: "ReadStream::wait".into(), cut: cut.into(), b, need, k });
+        // ring offsets: fresh ring; data ends exactly at the wrap; buffered data
+        // straddles the wrap; final commit straddles the wrap
+        let mut offsets = vec![0usize];
+        if b + k > 1 && b + k < cap {
+            offsets.push(cap - (b + k) / 2 - 1);
+            offsets.push(cap - 1);
+            if b > 1 {
+                offsets.push(cap - b / 2);
+            }
         }
-        for cut in ["before-call", "before-liveness-read", "after-liveness-read", "after-call"] {
-            g.push(Scn { kind: "ReadStream::eof".into(), cut: cut.into(), b, need, k });
+        offsets.dedup();
+        for offset in offsets {
+            for cut in ["before-call", "during-wait", "at-liveness-read", "commit-only-at-liveness-read", "after-call"] {
+                g.push(Scn { kind: "ReadStream::wait".into(), cut: cut.into(), b, need, k, offset });
+            }
+            if offset == 0 || offset == cap - 1 {
+                for cut in ["before-call", "before-liveness-read", "after-liveness-read", "after-call"] {
+                    g.push(Scn { kind: "ReadStream::eof".into(), cut: cut.into(), b, need, k, offset });
+                }
+            }
         }
     }
     for &(free, need, k) in &[(0usize, 1usize, 0usize), (0, 1, 1), (0, 10, 5), (0, 10, 10), (5, 10, 5), (5, 10, 4), (10, 10, 0), (0, 1024, 1024), (0, 1024, 1000)] {
-        for cut in ["before-call", "during-wait", "at-liveness-read", "after-call"] {
-            g.push(Scn { kind: "WriteStream::wait".into(), cut: cut.into(), b: free, need, k });
+        for offset in [0usize, cap - 1, cap - need / 2 - 1] {
+            for cut in ["before-call", "during-wait", "at-liveness-read", "after-call"] {
+                g.push(Scn { kind: "WriteStream::wait".into(), cut: cut.into(), b: free, need, k, offset });
+            }
         }
     }
     for &(b, need, k) in &[(0usize, 1usize, 0usize), (0, 1, 1), (0, 1, 3), (1, 1, 0), (1, 2, 1), (1, 3, 1), (2, 5, 3), (0, 5, 4)] {
         for cut in ["before-call", "at-entry", "during-wait", "after-call"] {
-            g.push(Scn { kind: "NCReadStream::wait".into(), cut: cut.into(), b, need, k });
+            g.push(Scn { kind: "NCReadStream::wait".into(), cut: cut.into(), b, need, k, offset: 0 });
         }
         for cut in ["before-call", "at-entry", "between-emptiness-and-liveness-read", "after-call"] {
-            g.push(Scn { kind: "NCReadStream::eof".into(), cut: cut.into(), b, need, k });
+            g.push(Scn { kind: "NCReadStream::eof".into(), cut: cut.into(), b, need, k, offset: 0 });
         }
     }
     for &(b, k) in &[(0usize, 1usize), (0, 3), (0, 0), (1, 1)] {
-        g.push(Scn { kind: "block-eof(packet input)".into(), cut: "between-emptiness-and-liveness-read".into(), b, need: 0, k });
+        g.push(Scn { kind: "block-eof(packet input)".into(), cut: "between-emptiness-and-liveness-read".into(), b, need: 0, k, offset: 0 });
     }
     // MTGraph: `need` = number of liveness reads of the middle thread to let pass first
     for &(b, k) in &[(0usize, 10usize), (100, 1), (500, 524), (1000, 24), (10, 0)] {
         for skip in [0usize, 1, 2] {
-            g.push(Scn { kind: "MTGraph".into(), cut: "middle-thread-at-liveness-read".into(), b, need: skip, k });
+            g.push(Scn { kind: "MTGraph".into(), cut: "middle-thread-at-liveness-read".into(), b, need: skip, k, offset: 0 });
         }
     }
     g
